@@ -90,3 +90,12 @@ Definition cs_class_text (t : table) (s : string) : list string :=
 (* what the harness evaluates *)
 Definition cs_block_ref (tt : list EngineSM.row) (structs protos msgs : list string) : string := ref16_rows tt structs protos msgs cs_block16.
 Definition cs_block_ok : bool := match cs_block16_opt with Some _ => true | None => false end.
+
+(* ---------------------------------------------------------------- the WHOLE shipped file *)
+Definition cs_file16_opt : option template16 := option_map snd (shipped16 dict0 cs_file).
+Definition cs_file16 : template16 := match cs_file16_opt with Some t => t | None => [] end.
+(* what the harness evaluates: the reference text of the whole file for a table, an interface and a user-tag assignment; its admission *)
+Definition cs_file_ref (tt : list EngineSM.row) (structs protos msgs : list string) (a : list (string * string)) : string :=
+  ref16 (with_user a (elements_of (table_of tt) structs protos msgs)) cs_file16.
+Definition cs_file_wf (tt : list EngineSM.row) (structs protos msgs : list string) (a : list (string * string)) : bool :=
+  match cs_file16_opt with Some t => wf_elements16 t (with_user a (elements_of (table_of tt) structs protos msgs)) | None => false end.
